@@ -126,7 +126,7 @@ def main():
         res["analysis_errors"] = {k: v for k, v in det.items() if v["rc"] == 2}
         valid = rc0 == 0 and rc1 not in (0, 124) and not res.get("stable_tests_missing")
         res["valid_seed"] = bool(valid)
-        if valid:
+        if valid and not no_tests:
             dst = os.path.join(VERIF, "seeded", sid)
             os.makedirs(dst, exist_ok=True)
             shutil.copy(os.path.join(src, "patch.diff"), dst)
